@@ -151,6 +151,41 @@ def te_probe(v: bytes):
     return {"reads": reads, "writes": sent == b"2\r\nab\r\n", "raw": sent == b"ab"}
 
 
+def frame_probe(case):
+    """the real HTTP/1 writers on a list of data events + end of message: the bytes written after the head"""
+    from mitmproxy import http as mhttp
+    from mitmproxy.connection import ConnectionState, Server
+    from mitmproxy.proxy import commands as mcmds, events as mevents
+    from mitmproxy.proxy.layers.http import _events as E
+    from mitmproxy.proxy.layers.http._http1 import Http1Client, Http1Server
+    chunks = [unhx(c) for c in case["chunks"]]
+    hdr = [(b"Transfer-Encoding", b"chunked")] if case["chunked"] else [(b"Content-Length", str(sum(map(len, chunks))).encode())]
+    ctx = make_context()
+    ctx.server = Server(address=("a.example", 80)); ctx.server.state = ConnectionState.OPEN
+    sent = []
+
+    def run(lay, ev):
+        for c in lay.handle_event(ev):
+            if isinstance(c, mcmds.SendData): sent.append(bytes(c.data))
+    if case["dir"] == "req":
+        lay = Http1Client(ctx)
+        run(lay, mevents.Start())
+        req = mhttp.Request.make("POST", "http://a.example/p", b"", {})
+        req.headers = mhttp.Headers([(b"Host", b"a.example")] + hdr)
+        run(lay, E.RequestHeaders(1, req, False))
+        for c in chunks: run(lay, E.RequestData(1, c))
+        run(lay, E.RequestEndOfMessage(1))
+    else:
+        lay = Http1Server(ctx)
+        run(lay, mevents.Start())
+        run(lay, mevents.DataReceived(ctx.client, b"GET http://a.example/p HTTP/1.1\r\nHost: a.example\r\n\r\n"))
+        rsp = mhttp.Response.make(200, b"", {}); rsp.headers = mhttp.Headers(hdr)
+        run(lay, E.ResponseHeaders(1, rsp, False))
+        for c in chunks: run(lay, E.ResponseData(1, c))
+        run(lay, E.ResponseEndOfMessage(1))
+    return {"head": bool(sent), "wire_hex": hx(b"".join(sent[1:]))}
+
+
 def ref_final_chunked(v: bytes) -> bool:
     return [c.strip(b" \t").lower() for c in v.split(b",")][-1] == b"chunked"
 
@@ -651,7 +686,20 @@ class Check(PropertyCheck):
         if rng.chance(0.05): v += rng.pick([" ", ";q=1", ","])
         return {"op": "te", "v_hex": hx(v.encode())}
 
+    @staticmethod
+    def _frame(rng):
+        n = rng.randint(0, 5)
+        chunks = []
+        for _ in range(n):
+            k = rng.pick([0, 1, 1, 2, 9, 10, 15, 16, 17, 255, 256, rng.randint(0, 40), 4096])
+            chunks.append(hx(bytes(rng.getrandbits(8) for _ in range(k)) if k < 300 else bytes([rng.getrandbits(8)]) * k))
+        return {"op": "frame", "dir": rng.pick(["req", "resp"]), "chunked": rng.randint(0, 1), "chunks": chunks}
+
     def _generate(self, rng, tier):
+        for d in ("req", "resp"):
+            for ch in ([], ["-"], ["61"], ["61", "-", "6263"], ["-", "-"], ["30"], ["0d0a300d0a0d0a"]):
+                for c in (0, 1):
+                    yield {"op": "frame", "dir": d, "chunked": c, "chunks": ch}
         for v in [x for x in TE_SPELLINGS if not x.startswith("2lines")] + ["gzip", "identity", "chunked, gzip", "chunked,chunked", "br, chunked",
                                                                             "chunkedx", "x-chunked", " chunked", "chunked ", ",chunked"]:
             yield {"op": "te", "v_hex": hx(v.encode())}
@@ -712,6 +760,9 @@ class Check(PropertyCheck):
                 continue
             if r < 0.1:
                 yield self._te(rng)
+                continue
+            if r < 0.14:
+                yield self._frame(rng)
                 continue
             if r < 0.4:
                 yield self._wire(rng)
@@ -850,6 +901,8 @@ class Check(PropertyCheck):
                 return {"size": human.parse_size(s)}
             except ValueError:
                 return {"size": "err"}
+        if case["op"] == "frame":
+            return frame_probe(case)
         if case["op"] == "te":
             if not unhx(case["v_hex"]): raise Skip()      # an empty value is "no Transfer-Encoding" to headers.get(): not a TE value
             return te_probe(unhx(case["v_hex"]))
@@ -874,6 +927,16 @@ class Check(PropertyCheck):
 
     def oracle(self, case, obs):
         if case["op"] == "size" or obs.get("rejected"): return []
+        if case["op"] == "frame":
+            # "the peer receives exactly the received bytes": read with the independent strict reader, what was written
+            # for the data events is one well-framed body carrying exactly their bytes, piece by piece
+            chunks = [unhx(c) for c in case["chunks"]]
+            out = unhx(obs["wire_hex"])
+            if not case["chunked"]:
+                return [] if out == b"".join(chunks) else [f"frame: wrote {out[:60]!r} for {b''.join(chunks)[:60]!r}"]
+            got, ok, left = read_chunked(out)
+            if not ok or left: return [f"frame: not one well-framed chunked body: {out[:80]!r}"]
+            return [] if got == [c for c in chunks if c] else [f"frame: chunks {got[:4]} written for {chunks[:4]}"]
         if case["op"] == "te":
             # a body the reader de-chunks must be chunk-framed again by the writer (and only such a body): for every
             # value the reader accepts, both must agree with the field's meaning (chunked is the final coding)
@@ -1072,6 +1135,8 @@ class Check(PropertyCheck):
             return ["size " + case["s_hex"]]
         if case["op"] == "te":
             return ["te " + case["v_hex"]]
+        if case["op"] == "frame":
+            return [f"frame {case['chunked']} " + (",".join(case["chunks"]) if case["chunks"] else "-")]
         opt = lambda v: "none" if v is None else hx(v.encode())
         if any(case.get(k) is not None and not case[k].isascii() for k in ("limit", "thr")): raise Skip()
         if case["op"] in ("exch", "x2"):
@@ -1102,7 +1167,7 @@ class Check(PropertyCheck):
 
     def model_obs(self, case, replies):
         r = replies[0]
-        if case["op"] in ("size", "te") or r in ("rejected", "bad-op"): return r
+        if case["op"] in ("size", "te", "frame") or r in ("rejected", "bad-op"): return r
         if case["op"] in ("exch", "x2"):
             a, b = r.split(" | ")
             subs = self._sides(case, {"pre": None, "main": None})
@@ -1134,6 +1199,8 @@ class Check(PropertyCheck):
             return "err" if obs["size"] == "err" else f"ok {obs['size']}"
         if case["op"] == "te":
             return f"{obs['reads']} {int(obs['writes'])}"
+        if case["op"] == "frame":
+            return obs["wire_hex"]
         if obs.get("rejected"): return "rejected"
         if case["op"] in ("exch", "x2"):
             subs = self._sides(case, obs)
@@ -1149,6 +1216,7 @@ class Check(PropertyCheck):
     def classify(self, case, obs):
         if case["op"] == "size": return ("size", case["s_hex"]) if case["s_hex"] != "-" else None
         if case["op"] == "te": return ("te", case["v_hex"])
+        if case["op"] == "frame": return ("frame", case["dir"], case["chunked"], tuple(case["chunks"]))
         if case["op"] in ("exch", "x2"):
             return json.dumps(case, sort_keys=True)
         if case["op"] == "wire":
@@ -1161,6 +1229,7 @@ class Check(PropertyCheck):
     def branches(self, case, obs):
         if case["op"] == "size": return ["size:" + ("err" if obs["size"] == "err" else "ok")]
         if case["op"] == "te": return ["te:" + obs["reads"]]
+        if case["op"] == "frame": return [f"frame:{case['dir']}:{'chunked' if case['chunked'] else 'identity'}"]
         if obs.get("rejected"): return ["flow:option-rejected"]
         if case["op"] in ("exch", "x2"):
             def verdict(o):
